@@ -9,7 +9,8 @@
 //!   (B) objects of 32766..40000 maximum-size chunks whose unpacked total (and, separately, whose stored total) is just below / at /
 //!       above the u32 range of the footer fields, footer-less and footered, through the streaming and the seekable validator.  The
 //!       objects are synthesized by a virtual reader (a few LZ4 chunks + raw chunks of zeros), so nothing of that size is held in
-//!       memory and almost no LZ4 decoding is needed; one all-LZ4 stream at exactly 2^32 unpacked bytes is kept.
+//!       memory and almost no LZ4 decoding is needed (C08_ALL_LZ4=1 adds the all-LZ4 streams of the earlier version;
+//!       C08_PROBE_FILE_OVER_4G=1 gives the seekable validator files longer than 2^32 bytes).
 //! Prints `WITNESS ...` and exits 1 on the first violation.
 use std::panic::{catch_unwind, AssertUnwindSafe};
 use std::pin::Pin;
@@ -574,14 +575,20 @@ fn main() {
         cases.push((n, lz_needed(n, lz_len, 4_000_000), true, Seek));
         cases.push((n, lz_needed(n, lz_len, 4_000_000), true, Stream));
     }
-    // all chunks LZ4 (the stored form of the earlier version of this program), sampled at the boundary only
-    cases.push((32768, 32768, false, Stream));
+    // (the earlier version of this program stored ALL chunks as LZ4: ~1 ms of LZ4 decoding per chunk in this unoptimized build,
+    // 35 CPU-seconds per object; opt-in now)
+    if std::env::var("C08_ALL_LZ4").is_ok() {
+        cases.push((32767, 32767, false, Stream));
+        cases.push((32768, 32768, false, Stream));
+    }
     // stored total just below / above u32::MAX while the unpacked total stays below 2^32: all chunks raw
     // (32766 * 131080 = 4294967280 = u32::MAX - 15)
     for n in [32766usize, 32767] {
         cases.push((n, 0, false, Stream));
         cases.push((n, 0, true, Stream));
-        if n == 32766 || std::env::var("C08_PROBE_STORED_OVERFLOW_SEEK").is_ok() {
+        // (a footered FILE with such a chunk section is necessarily longer than 2^32 bytes: the seekable validator is given those
+        // only under the opt-in probe below)
+        if std::env::var("C08_PROBE_FILE_OVER_4G").is_ok() {
             cases.push((n, 0, true, Seek));
         }
     }
